@@ -19,9 +19,21 @@ const (
 	allocB = 64
 )
 
+// inputBuffer: the bytes in a buffer that may have spare capacity behind them (a receive array reused for reading).
+func inputBuffer(c *CaseBytes) *bytes.Buffer {
+	in := make([]byte, len(c.W), len(c.W)+max(0, c.Spare))
+	copy(in, c.W)
+	junk := in[len(in):cap(in)]
+	for i := range junk {
+		junk[i] = 0xA5
+	}
+	return bytes.NewBuffer(in)
+}
+
 func oracleC09(c *CaseBytes) *Failure {
+	defer runPrelude(c.Pre)()
 	obj := regByName[c.Type].New()
-	buf := bytes.NewBuffer(append([]byte{}, c.W...))
+	buf := inputBuffer(c)
 	armCase("C09", "c09", c.Type, "C09/"+c.Type+"/abort-or-hang", c)
 	err, pan, stack := safely(func() error { return DecodeAny(obj, buf) })
 	disarmCase()
@@ -35,9 +47,9 @@ func oracleC09(c *CaseBytes) *Failure {
 var memA, memB runtime.MemStats
 
 func oracleC10(c *CaseBytes) *Failure {
+	defer runPrelude(c.Pre)()
 	obj := regByName[c.Type].New()
-	in := append([]byte{}, c.W...)
-	buf := bytes.NewBuffer(in)
+	buf := inputBuffer(c)
 	armCase("C10", "c10", c.Type, "C10/"+c.Type+"/abort-or-hang", c)
 	runtime.ReadMemStats(&memA)
 	_, pan, _ := safely(func() error { return DecodeAny(obj, buf) })
@@ -116,7 +128,7 @@ func maxPrefixInputs(tn string) (out [][]byte, labels []string) {
 	return
 }
 
-func genHostile(rt *rapid.T, tn string, maxSize int) (*CaseBytes, []string, bool) {
+func genHostile(rt *rapid.T, tn string, maxSize int, hint int) (*CaseBytes, []string, bool) {
 	ts := Types[tn]
 	switch rapid.IntRange(0, 9).Draw(rt, "hk") {
 	case 0: // pure random bytes
@@ -142,7 +154,7 @@ func genHostile(rt *rapid.T, tn string, maxSize int) (*CaseBytes, []string, bool
 		o.BigProb, o.MaxList = 60, 600
 		v, _ := GenValue(rt, tn, o)
 		r := Render(v, &RenderOpts{Spans: true})
-		w, kind, over := mutateHostile(rt, r, ts.LE)
+		w, kind, over := mutateHostile(rt, r, ts.LE, hint)
 		return &CaseBytes{Type: tn, W: w}, []string{"mutated:" + kind}, over
 	}
 }
@@ -204,6 +216,16 @@ func runHostile(t *testing.T, prop, check string, oracle func(*CaseBytes) *Failu
 					}
 					orig := r.Bytes[sp.Off : sp.Off+sp.Len]
 					variants := [][]byte{bytesOf(' ', sp.Len), bytesOf(0, sp.Len), bytesOf(0xff, sp.Len), bytesOf('0', sp.Len), bytesOf('9', sp.Len)}
+					if sp.Len == 3 { // text keys that a number parser would accept or choke on
+						for _, k := range []string{"-01", "-1 ", "-10", "-99", "+10", "+01", "1e1", "0x1", "1_0", " 10", "10 ", "1.0", "٣٣"[:3]} {
+							variants = append(variants, []byte(k))
+						}
+						for _, reg := range tb.Order {
+							if len(reg) == 3 {
+								variants = append(variants, []byte{'+', reg[1], reg[2]}, []byte{'-', reg[1], reg[2]}, []byte{' ', reg[1], reg[2]})
+							}
+						}
+					}
 					for i := 0; i < sp.Len; i++ {
 						for _, b := range []byte{' ', 0, orig[i] ^ 1, orig[i] + 1} {
 							v := append([]byte{}, orig...)
@@ -243,11 +265,17 @@ func runHostile(t *testing.T, prop, check string, oracle func(*CaseBytes) *Failu
 		tn := tn
 		t.Run(tn, func(t *testing.T) {
 			CheckProp(t, prop, check, tn, func(rt *rapid.T) *CaseBytes {
-				maxSize := 3000
-				if prop == "C10" {
-					maxSize = 40000
+				maxSize := 70000
+				pre, hint := genPrelude(rt, tn, false)
+				c, cls, over := genHostile(rt, tn, maxSize, hint)
+				c.Pre = pre
+				if rapid.IntRange(0, 5).Draw(rt, "spare") == 0 {
+					c.Spare = rapid.SampledFrom([]int{1, 64, 4096, 65536, 1 << 20}).Draw(rt, "sparecap")
+					cls = append(cls, "buffer-with-spare-capacity")
 				}
-				c, cls, over := genHostile(rt, tn, maxSize)
+				if len(pre) > 0 {
+					cls = append(cls, "after-prior-calls")
+				}
 				hostileRecord(prop, c, cls, over)
 				return c
 			}, oracle)
